@@ -349,6 +349,18 @@ func (r wtReader) WriteTo(wr io.Writer) (int64, error) {
 	}
 }
 
+// seekReader additionally offers io.Seeker (like *os.File, *bytes.Reader, *strings.Reader).
+type seekReader struct{ s *simio.Stream }
+
+func (r seekReader) Read(p []byte) (int, error)                { return r.s.Read(p) }
+func (r seekReader) Seek(off int64, whence int) (int64, error) { return r.s.Seek(off, whence) }
+
+// lenReader additionally offers Len() (like *bytes.Reader, *bytes.Buffer, *strings.Reader).
+type lenReader struct{ s *simio.Stream }
+
+func (r lenReader) Read(p []byte) (int, error) { return r.s.Read(p) }
+func (r lenReader) Len() int                   { return r.s.Remaining() }
+
 func classify(err error, res *OpRes) {
 	res.ErrNil = err == nil
 	if err == nil {
@@ -407,6 +419,10 @@ func (w *World) Exec(t *core.Task, ti, oi int) {
 		switch op.Wrap {
 		case "wt":
 			rd = wtReader{s}
+		case "seek":
+			rd = seekReader{s}
+		case "len":
+			rd = lenReader{s}
 		case "bytes":
 			br = bytes.NewReader(x)
 			rd = br
